@@ -2,16 +2,16 @@ from vf.props import common as C
 
 
 def plan(tier):
-    conds = C.t_instr_conds("C16", tier)
+    conds = []
+    conds += C.t_instr_conds("C16", tier)
+    conds += C.t_upd_conds("C16", tier)
     return {
         "conds": conds,
         "min_classes": 150,
-        "explanation": "C16: counter invariant I-cnt (free plugs in [0,total], total-free = vehicles charging there incl. via a base, "
-                       "queue counter = vehicles queueing; stalls likewise) is preserved by one real transition from an arbitrary "
-                       "INV pre-state (one-step induction).",
-        "entry_points": ["step_simulation_ops.apply_instructions"],
-        "bounds": C.ARENA_BOUNDS + ["1 modelled vehicle per transition; 13 previous activities x 16 instructions"],
-        "outside": ["stations removed mid-run", "custom Instruction subclasses"],
-        "stubs": C.STUBS_COMMON,
-        "assumptions": ["pre-state satisfies INV (DESIGN 3.2)"],
+        "explanation": 'C16: a retained pre-state object is structurally identical (deep snapshot incl. instance ids) after the transition, and applying the same transition twice from it gives equal results modulo instance ids.',
+        "entry_points": ['step_simulation_ops.apply_instructions', 'step_simulation_ops.step_vehicle (VehicleState.update -> default_update -> move/charge/idle/pick_up_trip/drop_off_trip)'],
+        "bounds": C.ARENA_BOUNDS + C.T_BOUNDS,
+        "outside": C.T_OUTSIDE,
+        "stubs": C.STUBS_COMMON + C.STUBS_UPD,
+        "assumptions": ["pre-state satisfies INV (DESIGN 3.2); INV base case is the loader's initial state"],
     }
